@@ -19,6 +19,7 @@ import (
 	"strconv"
 	"strings"
 	"sync"
+	"sync/atomic"
 	"time"
 
 	"github.com/hashicorp/go-hclog"
@@ -882,6 +883,10 @@ func driveHistory(h *hist, s *sut, rng *core.Rand, extra []func()) *hist {
 
 // ---------------- watchdog ----------------
 
+var watchdogSeconds atomic.Int64
+
+func init() { watchdogSeconds.Store(30) }
+
 var (
 	stuckMu   sync.Mutex
 	stuckSeen = map[string]bool{} // goroutine ids already attributed to an earlier stuck history
@@ -896,7 +901,7 @@ func runHistoryGuarded(p hparams, rng *core.Rand) (h *hist, deadlock, dump strin
 	select {
 	case h := <-ch:
 		return h, "", ""
-	case <-time.After(30 * time.Second):
+	case <-time.After(time.Duration(watchdogSeconds.Load()) * time.Second):
 	}
 	buf := make([]byte, 16<<20)
 	buf = buf[:runtime.Stack(buf, true)]
@@ -924,6 +929,7 @@ func runHistoryGuarded(p hparams, rng *core.Rand) (h *hist, deadlock, dump strin
 		}
 	}
 	if commit != "" && subscribe != "" {
+		watchdogSeconds.Store(12) // the defect is on record; do not spend 30 s on each further occurrence
 		return nil, "Restoration.Commit holds Store.mu (write) and waits for EventPublisher.lock in RefreshTopic, while WatchList -> EventPublisher.Subscribe holds EventPublisher.lock and waits for Store.mu (read) in the snapshot handler watchSnapshot", commit + "\n\n" + subscribe
 	}
 	if len(mine) > 12 {
